@@ -1,0 +1,30 @@
+//go:build verif
+
+// Contracts for package reportfeed, checked by /verif/govc (see /verif/DESIGN.md).
+// This file contains only comments; it is compiled only with -tags verif and
+// has no effect on the package.
+
+package reportfeed
+
+//@ type ReportFeed
+//@ guarded_by Mutex: lastClientBuffer, lastServerBuffer
+
+//@ func Sanitise
+//@ ensures[C19] !contains(result, "<") && !contains(result, ">")
+
+//@ func (*ReportFeed).RecordClientBuffer
+//@ requires[C07] rf != nil
+//@ modifies rf.lastClientBuffer, gc("clock", 0)
+
+//@ func (*ReportFeed).RecordServerBuffer
+//@ requires[C07] rf != nil
+//@ modifies rf.lastServerBuffer, gc("clock", 0)
+
+// The status page: the template is a constant; every traffic-derived argument (the two hex
+// dumps and the message list) reaches it free of '<' and '>'.
+//@ func (*ReportFeed).Status
+//@ requires[C07] rf != nil && rf.RecentMessages != nil
+//@ arith wrap
+//@ atcall[C19] fmt.Sprintf /<html|<h3>|<pre>/: !contains(argstr(a1, 1), "<") && !contains(argstr(a1, 1), ">") && !contains(argstr(a1, 3), "<") && !contains(argstr(a1, 3), ">") && !contains(argstr(a1, 4), "<") && !contains(argstr(a1, 4), ">")
+//@ loop 1
+//@ invariant[C19] !contains(messageDisplay, "<") && !contains(messageDisplay, ">")
